@@ -726,9 +726,12 @@ def cert_lines(p, cases, couts):
                 I, nI = c.meta["I"]
                 Oraw = c.meta["Oraw"]
                 out.append(("id.certrord %s %s %s %s" % (P, raw_ideal_line((I, nI)), hxs(lat_flat(Oraw)), co), "1", c))
+                # complete certificate (proved: accepted => T is exactly the right order)
+                out.append(("id.certtransx %s %s %s %s %s" % (P, raw_ideal_line((I, nI)), raw_ideal_line((I, nI)), hxs(lat_flat(Oraw)), co), "1", c))
             elif c.kind == "rtrans":
                 (I, nI), (J, nJ) = c.meta["I1"], c.meta["I2"]
                 out.append(("id.certtransid %s %s %s %s %s" % (P, raw_ideal_line((I, nI)), raw_ideal_line((J, nJ)), hxs(lat_flat(c.meta["Oraw"])), co), "1 1", c))
+                out.append(("id.certtransx %s %s %s %s %s" % (P, raw_ideal_line((I, nI)), raw_ideal_line((J, nJ)), hxs(lat_flat(c.meta["Oraw"])), co), "1", c))
             elif c.kind == "isom" and co.startswith("1 "):
                 (I, nI), (J, nJ) = c.meta["I1"], c.meta["I2"]
                 out.append(("id.certisom %s %s %s %s" % (P, hxs(lat_flat(I)), hxs(lat_flat(J)), co[2:]), "1", c))
